@@ -237,6 +237,46 @@ class Crate:
         self.traits = {t["path"]: t for t in raw["traits"]}
         self._fold_const_arrays()
         self._normalise_qualified_method_calls()
+        self._stream_generics_as_impl_trait()
+
+    STREAM_TRAITS = ("ClassRead", "ClassWrite", "Read", "Write", "BufRead", "Seek")
+
+    def _stream_generics_as_impl_trait(self):
+        """`fn f<R: ClassRead>(reader: &mut R)` / `where R: ClassRead` is read as `fn f(reader: &mut impl ClassRead)`: a type parameter
+        whose only bounds are stream traits is replaced by `impl Trait` in the type strings of the function (refactor r4-A7), so that
+        rules which recognise the byte stream by its type see one spelling."""
+        import re
+        from lib import hir as H
+        for b in self.bodies:
+            bounds = b.get("bounds") or []
+            if not bounds:
+                continue
+            by_param = {}
+            for x in bounds:
+                by_param.setdefault(x["param"], []).append(x["trait"].rsplit("::", 1)[-1])
+            subst = {}
+            for p, trs in by_param.items():
+                trs = [t for t in trs if t != "Sized"]
+                if trs and all(t in self.STREAM_TRAITS for t in trs) and not p.startswith("impl "):
+                    subst[p] = "impl " + " + ".join(sorted(set(trs)))
+            if not subst:
+                continue
+            rx = re.compile(r"(?<![A-Za-z0-9_:])(%s)(?![A-Za-z0-9_:])" % "|".join(re.escape(p) for p in subst))
+            fix = lambda t: rx.sub(lambda m: subst[m.group(1)], t) if isinstance(t, str) else t
+            if b.get("inputs"):
+                b["inputs"] = [fix(t) for t in b["inputs"]]
+            if b.get("output"):
+                b["output"] = fix(b["output"])
+            stack = list(b.get("params") or []) + ([b["body"]] if isinstance(b.get("body"), dict) else [])
+            while stack:
+                n = stack.pop()
+                if isinstance(n, dict):
+                    for k in ("ty", "tya"):
+                        if isinstance(n.get(k), str):
+                            n[k] = fix(n[k])
+                    stack.extend(v for v in n.values() if isinstance(v, (dict, list)))
+                elif isinstance(n, list):
+                    stack.extend(n)
 
     def _normalise_qualified_method_calls(self):
         """`Type::method(recv, a, b)` on an inherent method of a workspace type that takes `self` is the same call as `recv.method(a, b)`;
